@@ -253,3 +253,22 @@ def gen_tables(repo, res):
     mixed_mts = [mt("u", element(0, "varying", 3, tet)), mt("lam", element(1, "varying", 3, sub))]
     scenario("mixed-dimensional facet integral: codimension-0 and codimension-1 elements", "exterior_facet", "facet", tet, "triangle", pts2, 2, mixed_mts,
              lambda t_: [(o_, r_) for o_ in range(3) for r_ in range(2)] if t_.f["el"].f["cell"] is tet else ident, mixed=True)
+
+    # an element living on a cell of codimension 3 (a point element in a tetrahedron integral) is not supported: rejected, not tabulated
+    key = f"{f.key}:codimension-3-rejected"
+    res.ob(key)
+    it = install_arrays(Interp(repo, load_classes(repo), primary=ET))
+    it.overrides["np.vstack"] = _PyCall(_vstack)
+    it.overrides["clamp_table_small_numbers"] = _PyCall(lambda t, **k: t)
+    pt = cell("vertex", 0)
+    bad_mt = mt("lam", element(0, "varying", 1, pt))
+    it.overrides["get_modified_terminal_element"] = _PyCall(lambda t: (t.f["el"], t.f["avg"], t.f["ld"], t.f["fc"]))
+    it.overrides["ufl.algorithms.sort_elements"] = _PyCall(lambda els: list(els))
+    it.overrides["ufl.algorithms.analysis.extract_sub_elements"] = _PyCall(lambda els: list(els))
+    it.overrides["get_ffcx_table_values"] = _PyCall(lambda *a, **k: {"array": NDArr([[[[Fr(1)]]]], (1, 1, 1, 1)), "offset": 0, "stride": 1})
+    rule_ = Node("QuadratureRule", points=NDArr([[Fr(1, 5), Fr(1, 3)]], (1, 2)), weights=[Fr(1)], has_tensor_factors=False, tensor_factors=None, id=_PyCall(lambda: "r0"))
+    try:
+        out = it.call_f(f, [rule_, tet, "exterior_facet", "facet", [bad_mt], {}, False, True])
+        fail_tables(key, f"an element on a cell of codimension 3 is accepted by build_optimized_tables (result {str(out)[:60]}): only codimension 0, 1 and 2 are implemented", loc)
+    except Raised:
+        pass
